@@ -195,24 +195,28 @@ class ExecClause:
             self.old_codes.append(compile(e, '<contract-old>', 'eval'))
 
     def snapshot(self, env):
-        ns = dict(EXEC_HELPERS)
-        ns.update(env)
-        return [copy.deepcopy(eval(c, ns)) for c in self.old_codes]
+        return [copy.deepcopy(eval(c, env)) for c in self.old_codes]
 
     def holds(self, env, olds):
-        ns = dict(EXEC_HELPERS)
-        ns.update(env)
-        ns['__old__'] = olds
-        return bool(eval(self.code, ns))
+        env['__old__'] = olds
+        return bool(eval(self.code, env))
 
 
 def run_exec_contract(contract, env, call, universe=None, extra_helpers=None):
     """Runs `call()` (the real function on real objects) under the executable contract.
     Returns list of (label, message) violations; empty = contract held. Preconditions not satisfied -> None."""
-    base = dict(env)
+    base = dict(EXEC_HELPERS)
+    base.update(env)
     base['__universe__'] = universe or {}
     if extra_helpers:
         base.update(extra_helpers)
+    for name, (params, body) in (contract.get('defs') or {}).items():
+        tree = _OldCollector().visit(ast.parse(body.strip(), mode='eval'))
+        lam = ast.Expression(body=ast.Lambda(
+            args=ast.arguments(posonlyargs=[], args=[ast.arg(arg=p) for p in params], kwonlyargs=[], kw_defaults=[],
+                               defaults=[]), body=tree.body))
+        ast.fix_missing_locations(lam)
+        base[name] = eval(compile(lam, '<contract-def>', 'eval'), base)
     req = contract.get('requires', {})
     req = req.items() if isinstance(req, dict) else enumerate(req)
     for lab, r in req:
@@ -256,7 +260,7 @@ def run_exec_contract(contract, env, call, universe=None, extra_helpers=None):
     for lab, (exc, w) in raises.items():
         if w:
             viol.append((f'raises[{lab}:must-raise]', f'returned {result!r} although {exc} is required'))
-    post = dict(base)
+    post = base
     post['result'] = result
     for lab, item in ens.items():
         if item is None:
